@@ -831,6 +831,8 @@ fn str_variant(cls: &str, cur: &str, var: &str, mat: &Material) -> Option<Value>
 	let b = base.as_bytes();
 	let s = match var {
 		"empty" => String::new(),
+		// a well-formed slatepack address of somebody else (an optional string that may be taken for a destination)
+		"spaddr" => String::try_from(&mat.addr_w2).ok()?,
 		"short" => match cls {
 			"b64inner" => base[..base.len().saturating_sub(4)].to_string(),
 			"bech32" | "uuid" | "optuuid" => base[..base.len().saturating_sub(1)].to_string(),
